@@ -28,8 +28,9 @@ A_NOT_CONST = "logical-not-of-constant-at-run-time"
 
 
 class Prog:
-    def __init__(self, r, avoid=(), cexpr_avoid=()):
+    def __init__(self, r, avoid=(), cexpr_avoid=(), prefix=""):
         self.r = r
+        self.prefix = prefix   # makes every file-scope name unique, so programs can share one gcc run
         self.avoid = frozenset(avoid)
         self.cavoid = frozenset(cexpr_avoid)
         self.n = 0
@@ -46,7 +47,7 @@ class Prog:
 
     def uid(self, p):
         self.n += 1
-        return "%s%d" % (p, self.n)
+        return "%s%s%d" % (self.prefix, p, self.n)
 
     def feat(self, f):
         self.features.add(f)
@@ -674,7 +675,7 @@ class FuncBody:
         return "{ %s }" % " ".join(out)
 
 
-def gen_program(r, avoid=(), cexpr_avoid=(), size=None):
-    p = Prog(r, avoid, cexpr_avoid)
+def gen_program(r, avoid=(), cexpr_avoid=(), size=None, prefix=""):
+    p = Prog(r, avoid, cexpr_avoid, prefix)
     src = p.build(size or r.randrange(6, 16))
     return src, sorted(p.features)
